@@ -109,10 +109,19 @@ def keynum(k):
 def base_history(pair, direction, n, rng, ws=0):
     fam = PAIRS[pair][2]
     large = fam.startswith("FLarge")
-    h = [{"op": "create", "pair": pair, "role": "A", "ws": ws, "ids": large or pair == "DC", "n": n},
-         {"op": "create", "pair": pair, "role": "B", "ws": ws, "ids": large or pair == "DC", "n": 8 if large else n}]
+    loops = rng.choice([2, 3, 3]) if large else 0
+    h = [{"op": "create", "pair": pair, "role": "A", "ws": ws, "ids": large or pair == "DC", "n": n, "loops": loops},
+         {"op": "create", "pair": pair, "role": "B", "ws": ws, "ids": large or pair == "DC", "n": 4 * loops if large else n, "loops": loops}]
     h.append({"op": "link", "a": 0, "b": 1} if direction == 0 else {"op": "link", "a": 1, "b": 0})
     return h
+
+
+def ll_masks(h, keep_loops):
+    """masks of a large-loop pair (entities 0 = receivers, 1 = transmitters) keeping the given loops (1-based)"""
+    n, loops = h[0]["n"], h[0]["loops"]
+    rx = [1 if rx_loop(i, n, loops) in keep_loops else 0 for i in range(n)]
+    tx = [1 if (v // 4 + 1) in keep_loops else 0 for v in range(4 * loops)]
+    return rx, tx
 
 
 def rand_edit(rng, pair, who):
@@ -144,9 +153,20 @@ def generate(rng, tier):
             h += [rand_edit(rng, pair, 0), rand_edit(rng, pair, 1), {"op": "reopen"}, rand_edit(rng, pair, 1 - direction)]
             cases.append({"hist": h + [{"op": "copy", "a": 0, "tws": 0, "mask": None}, {"op": "copy", "a": 2, "tws": 0, "mask": None}, rand_edit(rng, pair, 2), {"op": "reopen"}]})
             cases.append({"hist": h + [{"op": "copy", "a": 1, "tws": 1, "mask": None}, rand_edit(rng, pair, 3), {"op": "reopen"}, {"op": "copy", "a": 2, "tws": 1, "mask": None}]})
-            mask = [1, 1, 1, 0, 0, 0] if fam.startswith("FLarge") else [1, 1, 0, 1, 0, 1]
+            mask = mask_b = [1, 1, 0, 1, 0, 1]
+            if fam.startswith("FLarge"):
+                loops = h[0]["loops"]
+                mask, mask_b = ll_masks(h, {1, loops})   # three loops: the non-adjacent ids 1 and 3
             cases.append({"hist": h + [{"op": "copy", "a": 0, "tws": 0, "mask": mask}, {"op": "reopen"}]})
-            cases.append({"hist": h + [{"op": "copy", "a": 1, "tws": 1, "mask": [1, 1, 1, 1, 0, 0, 0, 0] if fam.startswith("FLarge") else mask}, {"op": "reopen"}]})
+            cases.append({"hist": h + [{"op": "copy", "a": 1, "tws": 1, "mask": mask_b}, {"op": "reopen"}]})
+            # edits through the side whose partner has never been read, observed on the file only; then fetch-one-and-edit after re-open
+            if pair != "DC":
+                other = 1 - (0 if direction == 0 else 1)   # the side that did NOT perform the link
+                hq = base_history(pair, direction, n, rng)
+                hq[0]["quiet"] = hq[1]["quiet"] = hq[2]["quiet"] = True
+                e1, e2 = rand_edit(rng, pair, other), rand_edit(rng, pair, rng.below(2))
+                e1["quiet"] = e2["quiet"] = True
+                cases.append({"hist": hq + [e1, {"op": "reopen"}, {"op": "reopen", "quiet": True}, e2, {"op": "reopen"}]})
             if fam in ("FTEM", "FLargeTEM"):
                 cases.append({"hist": h + [{"op": "wave", "a": 0, "seed": 3}, {"op": "copy", "a": 0, "tws": 0, "mask": None}, {"op": "wave", "a": 2, "seed": 7}, {"op": "reopen"}]})
     # tipper with a single base station, unequal vertex counts, unlinked copies, pairs without ids
@@ -171,7 +191,7 @@ def generate(rng, tier):
         if rng.chance(15):  # edits before the link
             h.insert(2, rand_edit(rng, pair, rng.below(2)))
         count = 2
-        sizes = {0: nv, 1: 8 if large else nv}
+        sizes = {0: nv, 1: h[1]["n"]}
         for _ in range(rng.range(2, 8)):
             c = rng.below(100)
             if c < 45:
@@ -183,21 +203,27 @@ def generate(rng, tier):
                 mask = None
                 if rng.chance(30) and a in sizes:
                     mask = [1 if rng.chance(65) else 0 for _ in range(sizes[a])]
-                    if large and a in (1,):
-                        mask = [1, 1, 1, 1, 0, 0, 0, 0] if rng.chance(50) else [1] * 8
-                    if large and a == 0:
-                        half = sizes[0] // 2
-                        mask = [1] * half + [0] * (sizes[0] - half)
+                    if large:
+                        keep = {k for k in range(1, h[0]["loops"] + 1) if rng.chance(60)} or {1}
+                        mask = ll_masks(h, keep)[a]
                 h.append({"op": "copy", "a": a, "tws": rng.below(2), "mask": mask})
                 count += 2
             else:
                 h.append({"op": "link", "a": 0, "b": 1} if rng.chance(50) else {"op": "link", "a": 1, "b": 0})
+        for o in h:   # some operations are followed by a look at the file only (no getter runs in between)
+            if o["op"] != "copy" and rng.chance(35):
+                o["quiet"] = True
         h.append({"op": "reopen"})
         cases.append({"hist": h})
     return cases
 
 
 # ----------------------------------------------------------------------------- implementation driver
+def rx_loop(i, n, loops):
+    """transmitter loop (1-based) that receiver i of n refers to"""
+    return i * loops // n + 1
+
+
 def _waveform(seed):
     import numpy as np
 
@@ -229,7 +255,7 @@ def _plain(v):
     return str(v)
 
 
-def _canon_md(md, ent, ents, partner=None):
+def _canon_md(md, ent, ents, partner=None, quiet=False):
     """metadata dict -> sorted [[key number, value]] with uuids as positions ('P', i), 'foreign', 'own'"""
     import uuid
 
@@ -242,7 +268,8 @@ def _canon_md(md, ent, ents, partner=None):
             continue
         kn = keynum(k)
         if isinstance(v, uuid.UUID):
-            own = [c.uid for o in (ent["obj"], partner) if o is not None and not isinstance(o, tuple)
+            owners = [x["obj"] for x in ents if x["ws"] == ent["ws"]] if quiet else [ent["obj"], partner]
+            own = [c.uid for o in owners if o is not None and not isinstance(o, tuple)
                    for c in o.children if getattr(c, "name", None) in ("Transmitter ID",)]
             if k == "Tx ID property" and v in own:
                 out.append([kn, ["own"]])
@@ -315,6 +342,16 @@ def drive_one(case, work):
                         "cls": type(o).__name__, "ws": e["ws"], "sizes": sizes})
         return out
 
+    def observe_quiet():
+        """stored metadata only: no getter of any entity runs"""
+        out = []
+        for e in ents:
+            o = e["obj"]
+            stored = wss[e["ws"]].fetch_metadata(e["uuid"])
+            out.append({"live": None, "stored": _canon_md(stored, e, ents, None, quiet=True), "partner": None, "ident": None, "txown": None,
+                        "cls": type(o).__name__, "ws": e["ws"], "sizes": [int(o.n_vertices) if o.n_vertices else 0, int(o.n_cells) if o.n_cells else 0]})
+        return out
+
     try:
         for op in case["hist"]:
             kind = op["op"]
@@ -325,8 +362,9 @@ def drive_one(case, work):
                     v = np.c_[np.arange(n, dtype=float), np.zeros(n), np.zeros(n)]
                     fam = PAIRS[pair][2]
                     if fam.startswith("FLarge") and role == "B":
-                        tv = np.array([[0, 0, 0], [1, 0, 0], [1, 1, 0], [0, 1, 0], [5, 0, 0], [6, 0, 0], [6, 1, 0], [5, 1, 0]], dtype=float)
-                        tc = np.array([[0, 1], [1, 2], [2, 3], [3, 0], [4, 5], [5, 6], [6, 7], [7, 4]])
+                        loops = op.get("loops", 2)
+                        tv = np.array([[5 * k + dx, dy, 0] for k in range(loops) for dx, dy in ((0, 0), (1, 0), (1, 1), (0, 1))], dtype=float)
+                        tc = np.array([[4 * k + i, 4 * k + (i + 1) % 4] for k in range(loops) for i in range(4)])
                         o = cls.create(wss[w], vertices=tv, cells=tc)
                         if op["ids"]:
                             o.tx_id_property = o.parts + 1
@@ -337,7 +375,7 @@ def drive_one(case, work):
                     else:
                         o = cls.create(wss[w], vertices=v)
                         if fam.startswith("FLarge") and op["ids"]:
-                            o.tx_id_property = np.array([1 if i < n // 2 else 2 for i in range(n)])
+                            o.tx_id_property = np.array([rx_loop(i, n, op.get("loops", 2)) for i in range(n)])
                         if pair == "DC" and op["ids"]:
                             o.ab_cell_id = np.array([1 + (i % max(n - 1, 1)) for i in range(o.n_cells)], dtype="int32")
                     ents.append({"ws": w, "uuid": o.uid, "obj": o, "pair": pair, "role": role})
@@ -414,7 +452,7 @@ def drive_one(case, work):
             except Exception as ex:  # noqa: BLE001
                 steps.append({"error": type(ex).__name__, "msg": str(ex)[:200]})
                 break
-            steps.append({"views": observe()})
+            steps.append({"views": observe_quiet(), "quiet": True} if op.get("quiet") else {"views": observe()})
     finally:
         for w in wss:
             try:
@@ -531,14 +569,16 @@ def case_term(case, obs):
             if ut is None:
                 return None
             t = t.replace("UNIT", _z(ut))
-        ops.append(t)
+        ops.append("(%s, %s)" % (t, cbool(not op.get("quiet"))))
         if "error" in st:
-            views.append("None")
+            views.append("OErr")
+        elif st.get("quiet"):
+            views.append("(OQuiet %s)" % clist(_cdict(v["stored"]) for v in st["views"]))
         else:
             vs = [_oview(v) for v in st["views"]]
             if any(v is None for v in vs):
                 return None
-            views.append("(Some %s)" % clist(vs))
+            views.append("(OFull %s)" % clist(vs))
     return "check_history %s %s" % (clist(ops), clist(views))
 
 
@@ -574,6 +614,8 @@ def oracle(case, obs):
     pairs = {}
     expect_copy = {}
     prev_views = None
+    prev_quiet = False
+    creates = {}
     for i, st in enumerate(steps):
         op = hist[i]
         k = op["op"]
@@ -597,8 +639,10 @@ def oracle(case, obs):
                 fails.append({"key": key, "what": f"step {i} {json.dumps(op)[:120]} raised {st['error']}: {st.get('msg')}"})
             break
         views = st["views"]
+        quiet = bool(st.get("quiet"))
         # bookkeeping of what the history asked for
         if k == "create":
+            creates[len(views) - 1] = op
             roles[len(views) - 1] = "DC" if op["pair"] == "DC" else PAIRS[op["pair"]][2]
             pairs[len(views) - 1] = op["pair"]
         elif k == "link":
@@ -644,8 +688,19 @@ def oracle(case, obs):
                         cls = views[a]["cls"]
                         if "LargeLoop" not in cls and "Electrode" not in cls and views[c2]["sizes"][0] != want:
                             fails.append({"key": "masked-copy-size", "what": f"step {i}: partner copy has {views[c2]['sizes'][0]} vertices, mask keeps {want}"})
-                        if "LargeLoop" in cls and views[c2]["sizes"][0] > views[pa]["sizes"][0]:
-                            fails.append({"key": "masked-copy-size", "what": f"step {i}: large-loop partner copy has {views[c2]['sizes'][0]} vertices"})
+                        if "LargeLoop" in cls and a in creates and pa in creates and creates[a].get("loops"):
+                            # exactly the loops the copied receivers refer to / the receivers of the copied loops
+                            loops, nrx = creates[a]["loops"], creates[min(a, pa) if creates[min(a, pa)]["role"] == "A" else max(a, pa)]["n"]
+                            rxi = a if creates[a]["role"] == "A" else pa
+                            nrx = creates[rxi]["n"]
+                            if creates[a]["role"] == "A":
+                                keep = {rx_loop(j, nrx, loops) for j in range(nrx) if op["mask"][j]}
+                                want2 = 4 * len(keep)
+                            else:
+                                keep = {kk + 1 for kk in range(loops) if all(op["mask"][4 * kk + d] for d in range(4))}
+                                want2 = sum(1 for j in range(nrx) if rx_loop(j, nrx, loops) in keep)
+                            if views[c2]["sizes"][0] != want2:
+                                fails.append({"key": "large-loop-copy-wrong-loops", "what": f"step {i}: the partner copy has {views[c2]['sizes'][0]} vertices, the kept loops {sorted(keep)} call for {want2}"})
             elif len(views) != n_before + 1:
                 fails.append({"key": "copy-unlinked-created-extra", "what": f"step {i}: copy of an unlinked survey created {len(views) - n_before} entities"})
         for j, v in enumerate(views):
@@ -656,6 +711,14 @@ def oracle(case, obs):
             if a > b:
                 continue
             va, vb = views[a], views[b]
+            if quiet:
+                if roles.get(a) != "DC" and va["stored"] != vb["stored"]:
+                    fails.append({"key": "stored-metadata-of-partners-differ", "what": f"step {i} ({k}): the files hold different metadata for partners ({a},{b}): {str(va['stored'])[:120]} / {str(vb['stored'])[:120]}"})
+                for v, who in ((va, a), (vb, b)):
+                    ids = {tuple(_get(v["stored"], 0) or []), tuple(_get(v["stored"], 1) or [])}
+                    if ids != {("P", a), ("P", b)}:
+                        fails.append({"key": "link-ids-missing", "what": f"step {i} ({k}): stored metadata of entity {who} names {sorted(ids)} instead of both partners ({a},{b})"})
+                continue
             if va["partner"] != b or vb["partner"] != a:
                 fails.append({"key": "partner-getter", "what": f"step {i} ({k}): partner getters of linked pair ({a},{b}) give {va['partner']} / {vb['partner']}"})
                 continue
@@ -698,11 +761,11 @@ def oracle(case, obs):
                     want = ["Z", tokz(val)]
                     kk = keynum(op["key"])
                     for who in (a, b):
-                        if _get(views[who]["live"], kk) != want or _get(views[who]["stored"], kk) != want:
+                        if (not quiet and _get(views[who]["live"], kk) != want) or _get(views[who]["stored"], kk) != want:
                             fails.append({"key": "edit-not-visible-on-both", "what": f"step {i}: edit {op['key']} not visible/stored on entity {who}"})
                 elif k == "wave":
                     for who in (a, b):
-                        w = _get(views[who]["live"], 2)
+                        w = _get(views[who]["stored" if quiet else "live"], 2)
                         if not w or _get(w[1], 1) != _wave_token(op["seed"]):
                             fails.append({"key": "edit-not-visible-on-both", "what": f"step {i}: waveform not visible on entity {who}"})
         # an edit of a pair must not change any other pair
@@ -711,7 +774,7 @@ def oracle(case, obs):
             for j, (v0, v1) in enumerate(zip(prev_views, views)):
                 if j in touched:
                     continue
-                if v0["live"] != v1["live"] or v0["stored"] != v1["stored"]:
+                if (not quiet and not prev_quiet and v0["live"] != v1["live"]) or v0["stored"] != v1["stored"]:
                     key = "edit-changes-other-pair"
                     if k == "wave":
                         key = "tem-copy-shares-waveform-dict"
@@ -719,15 +782,16 @@ def oracle(case, obs):
         # a copy must not change the originals
         if k == "copy" and prev_views is not None:
             for j, (v0, v1) in enumerate(zip(prev_views, views)):
-                if v0["live"] != v1["live"] or v0["stored"] != v1["stored"] or v0["partner"] != v1["partner"]:
+                if v0["stored"] != v1["stored"] or (not prev_quiet and (v0["live"] != v1["live"] or v0["partner"] != v1["partner"])):
                     fails.append({"key": "copy-changes-original", "what": f"step {i}: entity {j} changed during the copy of {op['a']}"})
         if k == "reopen" and prev_views is not None:
             for j, (v0, v1) in enumerate(zip(prev_views, views)):
                 if v0["stored"] != v1["stored"]:
                     fails.append({"key": "reopen-changes-stored", "what": f"step {i}: stored metadata of entity {j} changed over re-open"})
-                if v1["live"] != v1["stored"]:
+                if not quiet and v1["live"] != v1["stored"]:
                     fails.append({"key": "reopen-live-differs-from-stored", "what": f"step {i}: entity {j} reads metadata that differs from the file"})
         prev_views = views
+        prev_quiet = quiet
     # de-duplicate by key keeping the first message
     seen, out = set(), []
     for f in fails:
